@@ -104,7 +104,7 @@ def call_method(ex, objtype, name, objn, arrow, args, n, decl):
     t = t.rstrip('&').strip()
     if re.match(r'^(std::)?(__\w+::)?(vector|array|initializer_list)<', t):
         return vector_method(ex, t, name, objn, arrow, args, n)
-    if re.match(r'^(std::)?shared_ptr<', t) or re.match(r'^(std::)?unique_ptr<', t):
+    if re.match(r'^(std::)?(__)?shared_ptr(_access)?<', t) or re.match(r'^(std::)?unique_ptr<', t):
         if name in ('operator->', 'get'):
             return ex.ev(objn)
         if name == 'operator*':
@@ -112,6 +112,13 @@ def call_method(ex, objtype, name, objn, arrow, args, n, decl):
             return RefVal(pv.path)
         if name in ('operator bool',):
             return ex.tobool(ex.ev(objn), None)
+        if name == 'operator=':
+            pp = ex.lv(objn)
+            v = ex.ev(args[0])
+            if isinstance(v, RefVal):
+                v = ex.read(v.path)
+            ex.write(pp, v)
+            return RefVal(pp)
     if re.match(r'^(std::)?(__\w+::)?(__normal_iterator<|_Bit_iterator|_Bit_const_iterator)', t) or t.endswith('*'):
         return iterator_method(ex, name, objn, args, n)
     if re.match(r'^(std::)?(__\w+::)?_Bit_reference', t):
@@ -788,3 +795,79 @@ def _find(ex, args, n):
                      z3.Implies(j < b.off, z3.Select(v.data, j) == x),
                      z3.ForAll([k], z3.Implies(z3.And(k >= a.off, k < j), z3.Select(v.data, k) != x))))
     return PtrVal(a.path, j, a.el)
+
+
+@free('accumulate')
+def _accumulate(ex, args, n):
+    """std::accumulate(first, last, init) with operator+ : init + sum of the range, as the spec function SUMR
+    (left fold; over the reals the order is irrelevant)"""
+    from .specfun import SUMR
+    a, b = ex.ev(args[0]), ex.ev(args[1])
+    init = ex.calls._val(ex, args[2])
+    if len(args) > 3:
+        raise Unsupported('accumulate with custom operation')
+    if not (isinstance(a, PtrVal) and isinstance(b, PtrVal) and a.path is not None and a.path.same(b.path)):
+        raise Unsupported('accumulate over non-contiguous range')
+    p, v = _vec_at(ex, a.path)
+    ex.oblige('bounds', 'range', z3.And(a.off >= 0, a.off <= b.off, b.off <= v.len), n)
+    off0 = z3.is_int_value(z3.simplify(a.off)) and z3.simplify(a.off).as_long() == 0
+    j = z3.Int('j!acc')
+
+    def tot(d):
+        arr = d if off0 else z3.Lambda([j], z3.Select(d, j + a.off))
+        return SUMR(arr, b.off - a.off)
+    if v.el[0] == 'real':
+        return real(init) + tot(v.data)
+    if v.el[0] == 'struct' and v.el[1] == 'dsplib::cmplx_t':
+        return SVal('dsplib::cmplx_t', {'re': init.f['re'] + tot(v.data.f['re']), 'im': init.f['im'] + tot(v.data.f['im'])})
+    raise Unsupported('accumulate element type')
+
+
+@free('make_shared')
+def _make_shared(ex, args, n):
+    """std::make_shared<T>(args...): a fresh object of class T constructed with the matching constructor"""
+    t = n['type'].get('desugaredQualType') or n['type']['qualType']
+    m = re.match(r'^(?:std::)?shared_ptr<(.*)>$', re.sub(r'\bconst\b', '', t).strip())
+    if not m:
+        raise Unsupported('make_shared result type ' + t)
+    cls = m.group(1).strip()
+    sh = ex.shapes.of(cls)
+    if sh[0] != 'struct':
+        raise Unsupported('make_shared of ' + cls)
+    qual = sh[1]
+    cname = re.sub(r'<.*>$', '', qual).split('::')[-1]
+    vals = []
+    cands = []
+    for d in ex.tu.decls.values():
+        if d.get('kind') == 'CXXConstructorDecl' and d.get('_qual') == qual + '::' + cname and not d.get('_dependent'):
+            from .calls import params_of
+            ps = params_of(d)
+            if len(ps) != len(args):
+                continue
+            ok = True
+            for p_, a in zip(ps, args):
+                psh = ex.shapes.of_node(p_)
+                ash = ex.ctype(a)
+                if (psh[1] if psh[0] == 'ref' else psh) != ash:
+                    ok = False
+            if ok:
+                cands.append(d)
+    if not cands:
+        if not args:
+            obj = ex.new_root('heap_' + cname, ex.calls.default_construct(ex, sh, n))
+            return PtrVal(obj, None)
+        raise Unsupported('make_shared<%s>: constructor not found' % cls)
+    from .calls import body_of
+    cands.sort(key=lambda d: body_of(d) is None)
+    d = cands[0]
+    obj = ex.new_root('heap_' + cname, ex.calls.raw_object(ex, sh))
+    c = S.lookup(d['_qual'], d['type']['qualType'], None)
+    bound = ex.calls.bind_args(ex, d, args, n)
+    if c is not None and not c.inline:
+        ex.calls.apply_contract(ex, c, d, obj, bound, n, is_ctor=True)
+    else:
+        dd = ex.calls.definition_of(ex, d) or d
+        if body_of(dd) is None:
+            raise Unsupported('make_shared<%s>: no contract and no body for the constructor' % cls)
+        ex.calls.inline(ex, dd, c, obj, bound, n)
+    return PtrVal(obj, None)
